@@ -9,4 +9,5 @@ for f in spec/*.tla; do
   (cd spec && java -cp /opt/veriftools/tla/tla2tools.jar:/opt/veriftools/tla/CommunityModules-deps.jar tla2sany.SANY "$(basename "$f")" > ../.work/sany.out 2>&1) || { cat .work/sany.out; echo "SANY failed on $f"; exit 1; }
   if grep -q "Semantic errors\|Parse Error\|Fatal" .work/sany.out; then cat .work/sany.out; echo "SANY errors in $f"; exit 1; fi
 done
+PYTHONPATH="$(pwd):${VERIF_REPO:-/repo}" /venv/bin/python tools/selftest_alpha.py
 echo "setup ok: $(ls spec/*.tla | wc -l) modules parsed"
